@@ -34,7 +34,8 @@ RULE = ("random class models (inheritance depth <= 3, 1-2 type parameters rename
         "exports (Container, Sequence, Collection, Reversible), class- and method-level callbacks that return a new call node "
         "(renamed / wrapped) on classes whose method results are used as sub-expressions, a dataclass whose fields carry string "
         "annotations (forward references; whole models under `from __future__ import annotations`), plain non-generic subclasses "
-        "two and three levels below a parameterised base (also of an Iterable[...] base), fixed "
+        "two and three levels below a parameterised base (also of an Iterable[...] base), lambda parameters named like registered "
+        "functions (len, abs), fixed "
         "non-generic subclasses, Iterable subclasses with extra parameters, a registered custom collection, unannotated "
         "methods) and well-typed expressions generated with their expected type (method chains, Select/SelectMany/Where/"
         "First/Count/len/subscript at depth <= 3, comparisons, and/or, int/float arithmetic, dict fields, conditionals); "
@@ -262,7 +263,7 @@ class G:
             return call(A(v, k), []), ("p", "int")
         if k == "len":
             return call(N("len"), [v]), ("p", "int")
-        nv = r.choice(["a", "b", "e"])
+        nv = r.choice(["a", "b", "e", "len", "abs"])
         if k == "Select":
             b, bt = self.value(N(nv), el, d + 1)
             b, bt = self.scalarise(b, bt)
@@ -319,7 +320,8 @@ def run(ctx):
         cases = []
         for qi in range(ctx.budget(60, 200)):
             g = G(ctx.rng, spec)
-            b, bt = g.value(N("e"), ("c", "Ev", []), 0)
+            rv = ctx.rng.choice(["e", "e", "len", "abs"])      # also parameters named like registered functions
+            b, bt = g.value(N(rv), ("c", "Ev", []), 0)
             op = ctx.rng.choice(["Select", "Select", "SelectMany", "Where"])
             want = None
             if op == "Select":
@@ -333,7 +335,7 @@ def run(ctx):
             else:
                 b = g.boolean(b, bt) if ctx.rng.random() < 0.8 else b
                 want = ("c", "Ev", []) if isinstance(b, (ast.Compare, ast.BoolOp)) or bt == ("p", "bool") else "refuse"
-            cases.append((op, lam("e", b), want, g.interesting))
+            cases.append((op, lam(rv, b), want, g.interesting))
         answers = ctx.driver.call("op", [tc.model_requests(w, op, item_sx, q) for op, q, _, _ in cases])
         for (op, q, want, interesting), ans in zip(cases, answers):
             ctx.evaluations += 1
